@@ -456,6 +456,7 @@ func init() {
 			}},
 			{Name: "read", Count: countFn(8000, 300000), Run: c17Read},
 			{Name: "proc", Count: countFn(240, 3000), Run: c17Proc},
+			{Name: "exit", Count: countFn(120, 2000), Run: c17Exit},
 		},
 		Floors: []core.Floor{{Key: "render_checks", Quick: 25000, Thor: 2500000}, {Key: "aton_roundtrips", Quick: 10000, Thor: 1000000}, {Key: "generator_contract_checks", Quick: 2500, Thor: 250000}, {Key: "misuse_checks", Quick: 6000, Thor: 18000}, {Key: "lines_read", Quick: 8000, Thor: 800000}, {Key: "tag:gen:", Quick: 4, Thor: 4}, {Key: "process_runs", Quick: 80, Thor: 2000}, {Key: "tag:stdin:", Quick: 3, Thor: 3}},
 	})
